@@ -384,7 +384,15 @@ class SQLLineageHolder(ColumnLineageMixin):
                         g.remove_node(table)
             elif holder.rename:
                 for table_old, table_new in holder.rename:
-                    g = nx.relabel_nodes(g, {table_old: table_new})
+                    mapping: dict = {table_old: table_new}
+                    for node in g.nodes:
+                        # columns owned by the renamed table move with it
+                        if isinstance(node, Column) and node.parent == table_old:
+                            column_new = Column(node.raw_name)
+                            column_new.raw_name = node.raw_name
+                            column_new.parent = table_new
+                            mapping[node] = column_new
+                    g = nx.relabel_nodes(g, mapping)
                     if g.has_edge(table_new, table_new):
                         g.remove_edge(table_new, table_new)
                     if g.has_node(table_new) and g.degree[table_new] == 0:
